@@ -86,7 +86,7 @@ func decodeChecks(ctx *core.Ctx, pc *ProgCase, cc *CodecCell, i int, si int, st 
 			return
 		}
 		if only == nil {
-			ctx.Report(fmt.Sprintf("%s|decoder rejects the canonical encoding (%s)|%s|%s|%s", l, sfx, errWord(o.ErrText), progClass(pc.Prog.Name), optsFor(pc.Prog, "int")),
+			ctx.Report(fmt.Sprintf("%s|decoder rejects the canonical encoding (%s)|%s|%s|%s", l, sfx, errWord(o.ErrText), progClass(pc.Prog.Name), optsOnly(pc.Prog, "int")),
 				fmt.Sprintf("program %s message %s: %s\nbytes %s\n%s", pc.Prog.Name, m.ID, o.ErrText, core.Trunc(hexOf(ref), 300), core.Trunc(pc.Text, 600)), rep)
 		} else if only(wire.KMatch) && si == 0 {
 			// every key carried by an enumerated message is in the table: a rejection is a dispatch failure
@@ -120,7 +120,7 @@ func decodeChecks(ctx *core.Ctx, pc *ProgCase, cc *CodecCell, i int, si int, st 
 		if o.Pos > len(ref) {
 			dir = "more"
 		}
-		ctx.Report(fmt.Sprintf("%s|decoder consumes %s bytes than the message has (%s)|%s|%s", l, dir, sfx, progClass(pc.Prog.Name), optsFor(pc.Prog, "int")),
+		ctx.Report(fmt.Sprintf("%s|decoder consumes %s bytes than the message has (%s)|%s|%s", l, dir, sfx, progClass(pc.Prog.Name), optsOnly(pc.Prog, "int")),
 			fmt.Sprintf("program %s message %s: read position %d, message length %d\n%s", pc.Prog.Name, m.ID, o.Pos, len(ref), core.Trunc(pc.Text, 600)), rep)
 	}
 	if o.ReencErr != "" {
